@@ -595,18 +595,14 @@ def _signature_names(names, fn_t):
     elt = names.a[1]
     if not (elt.op == "sub" and tm.is_const(elt.a[1], 0)):
         return False
+    # which of the five parameter kinds pass the comprehension's tests (param.X and inspect.Parameter.X spell one constant)
     kinds = set()
-    for c in names.a[3]:
-        if c.op == "cmp" and c.a[0] == "in" and c.a[1].op == "attr" and c.a[1].a[1] == "kind" and c.a[2].op in ("tuple", "list", "set"):
-            for k in c.a[2].a:
-                if k.op == "attr":
-                    kinds.add(k.a[1])
-        elif c.op == "cmp" and c.a[0] == "==" and any(z.op == "attr" and z.a[1] == "kind" for z in c.a[1:]):
-            for z in c.a[1:]:
-                if z.op == "attr" and z.a[1] != "kind":
-                    kinds.add(z.a[1])
-        else:
+    for K in PARAM_KINDS:
+        ts = [_kind_truth(c, K) for c in names.a[3]]
+        if any(t is None for t in ts):
             return False
+        if all(ts):
+            kinds.add(K)
     return kinds == {"POSITIONAL_OR_KEYWORD", "KEYWORD_ONLY"}
 
 
@@ -802,6 +798,10 @@ def rule_filterimpl(ctx):
         star_ok = len(c.args) == 1 and c.args[0].op == "star" and c.args[0].a[0] is va
         yield ob("C03.FILTERIMPL", f, "util.filter_kwargs:positional@%d" % _ordinal(s, c), star_ok, "positional arguments are forwarded unchanged (*%s)" % f.vararg, node=c.node)
         kws = [v for n, v in c.kw if n == "**"]
+        if not c.kw and any((cc is kwa and not pp) or (cc.op == "cmp" and cc.a[0] == "==" and pp and any(z.op == "call" and call_name(z) == "builtins.len" and z.a[1][0] is kwa for z in cc.a[1:]) and any(tm.is_const(z, 0) for z in cc.a[1:])) for cc, pp in symeval.pc_conds(c.pc)):
+            # `if not kwargs: return f(*args)`: with no keyword given there is nothing to filter
+            yield ob("C03.FILTERIMPL", f, "util.filter_kwargs:empty-kwargs@%d" % _ordinal(s, c), True, "called without keywords only when none were given (`not %s`)" % f.kwarg, node=c.node)
+            continue
         need(len(kws) == 1 and len(c.kw) == 1, "C03.FILTERIMPL", "unexpected keyword forwarding shape")
         kwt = kws[0]
         by_kind = _filter_by_kind(kwt, kwa, fn_t, s)
